@@ -76,3 +76,29 @@ void STUB_secp256k1_sha256_finalize(const secp256k1_hash_ctx *hash_ctx, secp256k
 }
 #endif
 #endif
+
+/* ---- variants used by "glue" harnesses (included separately via macros; same install mechanism) ---- */
+#ifdef W_FIELD_TRANSPARENT
+/* opaque field kernels that are exact on the trivial operand 1 (so that z = 1 points keep their coordinates) */
+static int verif_fe_is_one(const secp256k1_fe *a) { return a->n[0] == 1 && !(a->n[1] | a->n[2] | a->n[3] | a->n[4]); }
+void STUB_secp256k1_fe_impl_mul(secp256k1_fe *r, const secp256k1_fe *a, const secp256k1_fe * SECP256K1_RESTRICT b) { if (verif_fe_is_one(a)) *r = *b; else if (verif_fe_is_one(b)) *r = *a; else *r = verif_fe_m1(); }
+void STUB_secp256k1_fe_impl_sqr(secp256k1_fe *r, const secp256k1_fe *a) { if (verif_fe_is_one(a)) *r = *a; else *r = verif_fe_m1(); }
+void STUB_secp256k1_fe_impl_inv(secp256k1_fe *r, const secp256k1_fe *a) { if (verif_fe_is_one(a)) *r = *a; else *r = verif_fe_m1(); }
+void STUB_secp256k1_fe_impl_inv_var(secp256k1_fe *r, const secp256k1_fe *a) { if (verif_fe_is_one(a)) *r = *a; else *r = verif_fe_m1(); }
+int STUB_secp256k1_fe_sqrt(secp256k1_fe * SECP256K1_RESTRICT r, const secp256k1_fe * SECP256K1_RESTRICT a) { (void)a; *r = verif_fe_m1(); return nondet_int() & 1; }
+int STUB_secp256k1_fe_impl_is_square_var(const secp256k1_fe *x) { (void)x; return nondet_int() & 1; }
+#endif
+
+#ifdef W_SCALAR_UF
+/* scalar multiplication / inversion as uninterpreted functions over 256-bit values (functional consistency only) */
+typedef unsigned __CPROVER_bitvector[256] sbv;
+sbv __CPROVER_uninterpreted_scmul(sbv a, sbv b);
+sbv __CPROVER_uninterpreted_scinv(sbv a);
+static sbv sc_bv(const secp256k1_scalar *a) { return (((((sbv)a->d[3] << 64) | a->d[2]) << 64 | a->d[1]) << 64) | a->d[0]; }
+static void sc_from_bv(secp256k1_scalar *r, sbv v) { r->d[0] = (uint64_t)v; r->d[1] = (uint64_t)(v >> 64); r->d[2] = (uint64_t)(v >> 128); r->d[3] = (uint64_t)(v >> 192); }
+static sbv uf_scmul(sbv a, sbv b) { sbv r = __CPROVER_uninterpreted_scmul(a, b); __CPROVER_assume((bvw)r < verif_N()); return r; }
+static sbv uf_scinv(sbv a) { sbv r = __CPROVER_uninterpreted_scinv(a); __CPROVER_assume((bvw)r < verif_N()); __CPROVER_assume((a == 0) == (r == 0)); return r; }
+void STUB_secp256k1_scalar_mul(secp256k1_scalar *r, const secp256k1_scalar *a, const secp256k1_scalar *b) { sc_from_bv(r, uf_scmul(sc_bv(a), sc_bv(b))); }
+void STUB_secp256k1_scalar_inverse(secp256k1_scalar *r, const secp256k1_scalar *a) { sc_from_bv(r, uf_scinv(sc_bv(a))); }
+void STUB_secp256k1_scalar_inverse_var(secp256k1_scalar *r, const secp256k1_scalar *a) { sc_from_bv(r, uf_scinv(sc_bv(a))); }
+#endif
